@@ -105,6 +105,30 @@ pub struct BuiltInPrimitives {
 }
 
 impl BuiltInPrimitives {
+  /// Is this class, or one of its ancestors, a class whose values are not
+  /// instances. The native methods of these classes reinterpret their
+  /// receiver, so they must not end up on a class that creates instances
+  pub fn is_primitive(&self, class: ObjRef<Class>) -> bool {
+    [
+      self.nil,
+      self.bool,
+      self.channel,
+      self.class,
+      self.fun,
+      self.number,
+      self.string,
+      self.list,
+      self.tuple,
+      self.map,
+      self.iter,
+      self.closure,
+      self.method,
+      self.native_fun,
+    ]
+    .iter()
+    .any(|primitive| class.is_subclass(*primitive))
+  }
+
   pub fn for_value(&self, value: Value) -> ObjRef<Class> {
     match value.kind() {
       ValueKind::Bool => self.bool,
